@@ -967,9 +967,10 @@ def _factorize_single(by, expect, *, sort: bool, reindex: bool) -> tuple[pd.Inde
             groups = expect[(sorter,)] if sort else expect
             idx = np.searchsorted(expect, flat, sorter=sorter)
             mask = ~np.isin(flat, expect) | isnull(flat) | (idx == len(expect))
-            if not sort:
+            if not sort and len(expect) > 0:
                 # idx is the index in to the sorted array.
                 # if we didn't want sorting, unsort it back
+                # (nothing to unsort for an empty `expect`: every label is masked below)
                 idx[(idx == len(expect),)] = -1
                 idx = sorter[(idx,)]
             idx[mask] = -1
